@@ -19,6 +19,10 @@ import (
 //	write: the library encoded v and ref decoded d  (C13, C19)
 //
 // The differences are confined to nullable positions (see agreeUnion).
+// agreeIgnoreAbsent switches off the "fields the schema lacks stay zero" clause
+// (C05 fills such fields with a canary pattern and checks them itself).
+var agreeIgnoreAbsent bool
+
 type agreeDir int
 
 const (
@@ -62,6 +66,13 @@ func logicalUnit(s ref.Schema) int64 {
 func agree(s ref.Schema, d ref.Datum, ts spec.TypeSpec, omit bool, v reflect.Value, dir agreeDir, path string) error {
 	if s.Kind == "union" {
 		return agreeUnion(s, d, ts, omit, v, dir, path)
+	}
+	if s.Kind == "null" {
+		// a null carries no data: whatever the Go type, the field keeps its zero value
+		if dir == dirRead && !v.IsZero() {
+			return fmt.Errorf("%s: schema null but the Go field holds %v", path, v)
+		}
+		return nil
 	}
 	base, bv, ok := derefAll(ts, v)
 	if !ok {
@@ -266,7 +277,7 @@ func agreeValue(s ref.Schema, d ref.Datum, ts spec.TypeSpec, v reflect.Value, di
 				}
 			}
 		}
-		if dir == dirRead {
+		if dir == dirRead && !agreeIgnoreAbsent {
 			// fields the schema lacks stay zero
 			for j, tf := range ts.Fields {
 				if !seen[tf.AvroName()] && !tf.Unexported && !v.Field(j).IsZero() {
